@@ -169,30 +169,31 @@ def check_file(rep, prog):
     lines = Op("m:readlines", Op("file", df, Const("r")))
     okp = [tuple(e.data[1]) for e in ps] == [(lines, f) for f in fmts]
     pd0 = [e for e in I.events if e.kind == "opaquecall" and e.data[0] == DQ + "parse_dump_data"]
-    if okp and len(ps) == 2 and len(pd0) == 1:
+    if okp and len(ps) == 2 and pd0:
         # which parse result is decoded: by evaluation over the empty / non-empty combinations (whether the second format is
-        # tried eagerly or only after the first came back empty makes no difference: parsing has no side effect)
+        # tried eagerly or only after the first came back empty, and whether the decode call sits after the loop or inside it,
+        # makes no difference: parsing has no side effect)
         first, second = (Op("call:pel.hexdump.parse", lines, f) for f in fmts)
         for v1 in (b"", b"\x01\x02"):
             for v2 in (b"", b"\x03"):
                 env = {first: bytearray(v1), second: bytearray(v2), Op("truthy", first): bool(v1), Op("truthy", second): bool(v2),
                        Op("len", first): len(v1), Op("len", second): len(v2)}
                 try:
-                    called = bool(evaluate(pd0[0].guard, env))
-                    got = evaluate(pd0[0].data[1][0], env) if called else None
+                    called = [p_ for p_ in pd0 if bool(evaluate(p_.guard, env))]
+                    gots = [evaluate(p_.data[1][0], env) for p_ in called]
                 except CannotEval as e:
                     raise AnalysisError("choice of the parsed dump bytes not evaluable: %s" % e)
+                gots = [bytes(g_) if isinstance(g_, (bytes, bytearray, memoryview)) else g_ for g_ in gots]
                 want = v1 or v2
-                got = bytes(got) if isinstance(got, (bytes, bytearray, memoryview)) else got
-                if (want and not called) or (called and got != want and not (not want and not got)):
-                    okp = False
+                if want:
+                    okp = okp and len(called) == 1 and gots[0] == want
+                else:
+                    okp = okp and all(not g_ for g_ in gots)
     rep.check(okp, rule, "formats are tried in order on the file's lines; the first non-empty parse is used", DQ + "parse_dump_file",
               "for line_format in HEX_DUMP_LINE_FORMATS", "dump file is not parsed with each supported format in order (first non-empty wins)")
-    pd = [e for e in I.events if e.kind == "opaquecall" and e.data[0] == DQ + "parse_dump_data"]
-    okd = len(pd) == 1 and pd[0].data[1][1] == hf and pd[0].data[1][2] == sf
-    if okd:
-        d = pd[0].data[1][0]
-        okd = any(isinstance(x, Op) and x.op == "call:pel.hexdump.parse" for x in walk(d)) and implies(pd[0].guard, I.truth(d) if False else pd[0].guard)[0]
+    pd = pd0
+    okd = bool(pd) and all(p_.data[1][1] == hf and p_.data[1][2] == sf and
+                           any(isinstance(x, Op) and x.op == "call:pel.hexdump.parse" for x in walk(p_.data[1][0])) for p_ in pd)
     rep.check(okd, rule, "the parsed bytes are decoded by parse_dump_data(bytes, header_file, string_file)", DQ + "parse_dump_file",
               "parse_dump_data(data, header_file, string_file)", "parsed bytes / definition files are not handed to parse_dump_data in order")
     # names constant
